@@ -242,7 +242,15 @@ class Run:
         kwargs = dict(virtual_host=sc['vhost'], heartbeat=sc['heartbeat'], poller='select', lazy=True)
         if sc.get('client_properties') is not None:
             kwargs['client_properties'] = sc['client_properties']
-        self.conn = conn = amqpstorm.Connection('broker.invalid', sc['user'], sc['password'], **kwargs)
+        if sc.get('via_uri'):
+            # the same configuration stated as an AMQP URI (user, password and virtual host percent-encoded)
+            from urllib.parse import quote
+            uri = 'amqp://%s:%s@broker.invalid:5672/%s?heartbeat=%d&poller=select' % (
+                quote(sc['user'], safe=sc.get('uri_safe', '')), quote(sc['password'], safe=sc.get('uri_safe', '')),
+                quote(sc['vhost'], safe=sc.get('uri_safe', '')), sc['heartbeat'])
+            self.conn = conn = amqpstorm.UriConnection(uri, client_properties=sc.get('client_properties'), lazy=True)
+        else:
+            self.conn = conn = amqpstorm.Connection('broker.invalid', sc['user'], sc['password'], **kwargs)
         conn.heartbeat.timer_impl = FakeTimer
         io = conn._io
         self.vsock = VSock(self)
@@ -563,6 +571,19 @@ def rand_config(rng):
     return {'user': user, 'password': pw, 'vhost': vhost, 'heartbeat': hb, 'client_properties': cp}
 
 
+def rand_uri_config(rng):
+    """a configuration that a URI can state (non-empty user, password and virtual host), with the characters a URI treats
+    specially and the scheme's own name inside the values"""
+    words = ['guest', 'a+b', 'amqp', 'my-amqps-pw', 'x y', '+', 'p%2Bq', 'p%20q', 'a/b', 'u:s@r', 'ünï', '?q=1#f', 'amqpamqp', 'http']
+    def word():
+        return rng.choice(words) if rng.random() < 0.8 else (rand_text(rng, 1, 8) or 'w')
+    cfg = rand_config(rng)
+    cfg.update({'user': word(), 'password': word(), 'vhost': rng.choice(['/', word(), word()]), 'via_uri': True,
+                # percent-encode everything, or leave the sub-delimiters RFC 3986 allows in userinfo and path as they are
+                'uri_safe': rng.choice(['', "+!$&'()*,;="])})
+    return cfg
+
+
 def rand_mech_list(rng):
     k = rng.choice([0, 1, 1, 2, 2, 3, 4])
     toks = [rng.choice(ALPHABET + EXTRA_TOKENS) for _ in range(k)]
@@ -618,6 +639,9 @@ def gen_scenarios(rng, thorough):
             mech = rng.choice(['PLAIN', 'PLAIN AMQPLAIN', 'AMQPLAIN PLAIN', 'EXTERNAL', 'PLAIN EXTERNAL', 'RABBIT-CR-DEMO PLAIN'])
             yield 'grid', scenario(rand_config(rng), mech, cm, fm, sched=rand_schedule(rng) if rng.random() < 0.3 else None,
                                    srv_hb=rng.choice([0, 60, 580]))
+    for _ in range(2000 if thorough else 200):
+        yield 'via-uri', scenario(rand_uri_config(rng), rng.choice(['PLAIN', 'PLAIN AMQPLAIN', 'EXTERNAL PLAIN']),
+                                  rng.choice(CHAN_BOUNDARY), rng.choice(FRAME_BOUNDARY), srv_hb=rng.choice([0, 60]))
     # 2. mechanism lists over the token alphabet
     if thorough:
         lists = [()]
@@ -892,6 +916,7 @@ def check(rep):
                 '(channel_max > 65535, frame_max > 2^32) and direct _send_start_ok / str.split() on random texts. '
                 'distinct = (kind, offer, tune values, refusal, config); non-trivial = a non-zero limit, a refusal or a multi-token offer')
     rep.rule += '; plus: re-open of a connection the broker dropped (failure recorded, reader ended, state not yet polled), optionally after a partial frame, against accepting and refusing brokers under the virtual runtime'
+    rep.rule += '; plus: the configuration stated as an AMQP URI (UriConnection; user, password and virtual host with +, %, :, @, / and the scheme name inside)'
     rep.assumptions = [
         'username, password and virtual_host are str and heartbeat is an int in 0..65535 (other values are rejected by pamqp when the reply is marshalled)',
         'offered mechanisms = the whitespace-separated tokens of the Start.mechanisms text (AMQP: space-separated); an undecodable or empty offer contains none',
